@@ -1137,3 +1137,115 @@ def false_answer_implies_false(p, h, fragments):
         if not all(fr in known for fr in fragments):
             return False
     return seen
+
+
+def _norm_place(fn, loc, proj, _depth=0):
+    """canonical (root, path) of a place, looking through single-definition reference / copy temporaries"""
+    path = tuple("*" if e == "*" else ("f", e[1]) if isinstance(e, list) and e[0] == "f" else ("d", e[1]) if isinstance(e, list) and e[0] == "d"
+                 else "?" for e in proj)
+    if _depth < 6 and not (1 <= loc <= fn.argc):
+        d = fn.single_def(loc)
+        if d and d[1] == "assign":
+            rv = d[2][2]
+            if rv[0] == "ref":
+                r0, p0 = _norm_place(fn, rv[2][0], rv[2][1], _depth + 1)
+                # a reference to P, then dereferenced, is P
+                if path[:1] == ("*",):
+                    return r0, p0 + path[1:]
+                return r0, p0 + ("&",) + path
+            if rv[0] in ("use", "cfd"):
+                op = rv[1] if rv[0] == "use" else ["c", rv[1]]
+                if op[0] != "k":
+                    r0, p0 = _norm_place(fn, op[1][0], op[1][1], _depth + 1)
+                    if p0[-1:] == ("&",) and path[:1] == ("*",):
+                        return r0, p0[:-1] + path[1:]
+                    return r0, p0 + path
+    return loc, path
+
+
+def variant_tests(fn):
+    """Repeated tests of one enum-valued place: {place key: [(switch_bb, {target_bb: set of variant names it implies})]}.
+    Recognised: `match` / `if let` on discriminant(P), and Option::is_some / is_none / Result::is_ok / is_err on &P."""
+    memo = fn.__dict__.get("_variant_tests")
+    if memo is not None:
+        return memo
+    tests = defaultdict(list)
+    for bb, i, st in fn.stmts():
+        if st[0] == "=" and st[2][0] == "discr" and not st[1][1]:
+            key = _norm_place(fn, st[2][1][0], st[2][1][1])
+            names = {int(v): n for v, n in st[2][3]}
+            for sb, b in enumerate(fn.blocks):
+                t = b["t"]
+                if t[0] == "switch" and op_local(t[1]) == st[1][0]:
+                    tg = defaultdict(set)
+                    listed = set()
+                    for v, target in t[2]:
+                        if int(v) in names:
+                            tg[target].add(names[int(v)])
+                            listed.add(names[int(v)])
+                    rest = set(names.values()) - listed
+                    if rest:
+                        tg[t[3]] |= rest
+                    tests[key].append((sb, dict(tg)))
+    for c in fn.calls():
+        last = c.name.rsplit("::", 1)[-1]
+        pair = {"is_some": ("Some", "None"), "is_none": ("None", "Some"), "is_ok": ("Ok", "Err"), "is_err": ("Err", "Ok")}.get(last)
+        if not pair or not ("Option" in c.name or "Result" in c.name) or not c.args or c.args[0][0] == "k" or c.dest[1]:
+            continue
+        r0, p0 = _norm_place(fn, c.args[0][1][0], c.args[0][1][1])
+        if p0[-1:] == ("&",):
+            p0 = p0[:-1]
+        elif not p0 or p0[-1] != "*":
+            p0 = p0 + ("*",)        # the argument is a reference held in a local: the tested place is its referent
+        for sb, t_true, t_false in bool_branches(fn, c.dest[0]):
+            tests[(r0, p0)].append((sb, {t_true: {pair[0]}, t_false: {pair[1]}}))
+    out = {k: v for k, v in tests.items() if len(v) >= 2}
+    fn.__dict__["_variant_tests"] = out
+    return out
+
+
+def correlated_reach(fn, start, avoid_blocks=(), avoid_edges=(), max_states=20000):
+    """Like Fn.reachable, but a place tested several times (the same Option matched, then asked is_some()) answers the same way
+    each time along one path.  Sound for places that are not written between the tests (parameters and shared borrows — the only
+    ones the callers use it for)."""
+    tests = variant_tests(fn)
+    if not tests:
+        return fn.reachable(start, avoid_blocks=avoid_blocks, avoid_edges=avoid_edges)
+    by_sw = defaultdict(list)
+    for key, lst in tests.items():
+        for sb, tg in lst:
+            by_sw[sb].append((key, tg))
+    avoid_blocks = set(avoid_blocks)
+    avoid_edges = set(avoid_edges)
+    if start in avoid_blocks:
+        return set()
+    init = (start, frozenset())
+    seen = {init}
+    dq = deque([init])
+    while dq:
+        b, facts = dq.popleft()
+        fd = dict(facts)
+        for s2 in fn.succ(b):
+            if s2 in avoid_blocks or (b, s2) in avoid_edges:
+                continue
+            nf = dict(fd)
+            feasible = True
+            for key, tg in by_sw.get(b, []):
+                allowed = tg.get(s2)
+                if allowed is None:
+                    continue
+                cur = nf.get(key)
+                new = frozenset(allowed) if cur is None else cur & frozenset(allowed)
+                if not new:
+                    feasible = False
+                    break
+                nf[key] = new
+            if not feasible:
+                continue
+            stt = (s2, frozenset(nf.items()))
+            if stt not in seen:
+                seen.add(stt)
+                if len(seen) > max_states:
+                    return fn.reachable(start, avoid_blocks=avoid_blocks, avoid_edges=avoid_edges)
+                dq.append(stt)
+    return {b for b, _ in seen}
